@@ -99,6 +99,15 @@ func (p *Path) global(g *ssa.Global) *Value {
 	}
 	cell := new(Value)
 	*cell = p.st().zero(g.Type().(*types.Pointer).Elem())
+	if g.Pkg != nil && g.Pkg.Pkg.Path() == "strconv" && (g.Name() == "ErrRange" || g.Name() == "ErrSyntax") {
+		// package strconv is not initialised by the executor: give its two
+		// sentinel errors distinct identities
+		msg := "value out of range"
+		if g.Name() == "ErrSyntax" {
+			msg = "invalid syntax"
+		}
+		*cell = p.mkError(strConst(p.st(), msg))
+	}
 	p.globals[g] = cell
 	if p.globalsFrozen && g.Pkg != nil && !strings.Contains(g.Pkg.Pkg.Path(), "/zzverif") && !strings.HasPrefix(g.Name(), "zz") {
 		p.freeze(cell, "package-level "+g.Pkg.Pkg.Name()+"."+g.Name(), map[interface{}]bool{})
